@@ -122,6 +122,8 @@ type Check struct {
 	Run func(unit string, env *Env) *Result
 	// Replay re-executes a witness and returns a description of what was observed.
 	Replay func(v *Violation) string
+	// ExeFor returns a suffix of the worker binary for a unit ("" = same binary, "-race" = the -race build).
+	ExeFor func(unit string) string
 	// Budget in seconds for the whole check (quick, thorough).
 	BudgetQuick, BudgetThorough int
 }
@@ -188,8 +190,8 @@ func Silence() *os.File {
 	orig, _ := syscall.Dup(2)
 	null, _ := os.OpenFile("/dev/null", os.O_WRONLY, 0)
 	if os.Getenv("VERIF_VERBOSE") == "" {
+		// kevo logs to stdout only; stderr stays connected so that fatal errors and race reports reach the parent
 		syscall.Dup2(int(null.Fd()), 1)
-		syscall.Dup2(int(null.Fd()), 2)
 	}
 	return os.NewFile(uintptr(orig), "stderr")
 }
@@ -318,7 +320,11 @@ func ParentMain(id, tier string) int {
 					continue
 				}
 				out := filepath.Join(tmp, fmt.Sprintf("u%d.json", i))
-				res := runWorker(exe, id, tier, u, out, deadline, seed)
+				wexe := exe
+				if c.ExeFor != nil {
+					wexe = exe + c.ExeFor(u)
+				}
+				res := runWorker(wexe, id, tier, u, out, deadline, seed)
 				mu.Lock()
 				total.Merge(res)
 				mu.Unlock()
@@ -395,6 +401,10 @@ func runWorker(exe, id, tier, unit, out string, deadline time.Time, seed int) *R
 		os.MkdirAll(scr, 0755)
 		defer os.RemoveAll(scr)
 		cmd.Env = append(os.Environ(), "GOMAXPROCS=1", "GOGC=400", "TMPDIR="+tmpd, "VERIF_SCRATCH="+scr)
+		if strings.HasSuffix(exe, "-race") {
+			// free-running pass: real parallelism, reports collected from a log file
+			cmd.Env = append(os.Environ(), "GOMAXPROCS=4", "TMPDIR="+tmpd, "VERIF_SCRATCH="+scr, "GORACE=halt_on_error=0 log_path="+out+".race")
+		}
 		var stderr strings.Builder
 		cmd.Stderr = &stderr
 		cmd.SysProcAttr = &syscall.SysProcAttr{Setpgid: true}
@@ -419,6 +429,10 @@ func runWorker(exe, id, tier, unit, out string, deadline time.Time, seed int) *R
 				if p, perr := os.ReadFile(out + ".progress"); perr == nil {
 					msg += " while evaluating: " + string(p)
 				}
+				if strings.Contains(stderr.String(), "WARNING: DATA RACE") {
+					st := stderr.String()
+					return nil, msg + " stderr: " + tail(st[strings.Index(st, "WARNING: DATA RACE"):], 6000)
+				}
 				return nil, msg + " stderr: " + oneLine(tail(stderr.String(), 1200), 1200)
 			}
 			var r Result
@@ -436,6 +450,38 @@ func runWorker(exe, id, tier, unit, out string, deadline time.Time, seed int) *R
 		}
 	}
 	r, msg := attempt()
+	if strings.HasSuffix(exe, "-race") {
+		// race reports of the -race build are the witnesses, whether or not the unit completed
+		files, _ := filepath.Glob(out + ".race*")
+		var reps []string
+		for _, f := range files {
+			b, _ := os.ReadFile(f)
+			os.Remove(f)
+			for _, rep := range strings.Split(string(b), "==================") {
+				if strings.Contains(rep, "WARNING: DATA RACE") {
+					reps = append(reps, rep)
+				}
+			}
+		}
+		if r == nil && len(reps) == 0 {
+			// fall through to the generic dead-worker handling
+		} else {
+			if r == nil {
+				r = NewResult()
+				r.Notes = append(r.Notes, "race unit "+unit+" did not complete: "+oneLine(msg, 300))
+			}
+			for _, rep := range reps {
+				frames, skip := raceFrames(rep)
+				if skip {
+					r.Count("race_reports_out_of_scope_or_harness_internal", 1)
+					continue
+				}
+				r.Violate(FP(id, "data-race", strings.Join(frames, "|")), "data race: "+strings.Join(frames, " <-> ")+" (first seen in "+unit+")", unit,
+					map[string]any{"unit": unit, "kind": "data-race", "frames": frames, "report": tail(rep, 5000)})
+			}
+			return r
+		}
+	}
 	if r != nil {
 		return r
 	}
@@ -456,6 +502,61 @@ func runWorker(exe, id, tier, unit, out string, deadline time.Time, seed int) *R
 	}
 	res.Violate(FP("worker-death", id, unit, prog), "worker process died twice on unit "+unit+": "+msg2, unit, map[string]any{"unit": unit, "kind": "worker-death", "case": prog, "detail": msg2})
 	return res
+}
+
+// raceFrames extracts the functions of the two racing accesses (first kevo frame of each stack) from a race report.
+// skip is true for reports that are out of the property's scope (an access made by Close) or internal to the harness.
+func raceFrames(rep string) (frames []string, skip bool) {
+	lines := strings.Split(rep, "\n")
+	inStack := false
+	cur := ""
+	stackHasClose := false
+	flush := func() {
+		if inStack {
+			if cur == "" {
+				cur = "(no kevo frame)"
+			}
+			frames = append(frames, cur)
+		}
+		inStack, cur = false, ""
+	}
+	for _, l := range lines {
+		t := strings.TrimSpace(l)
+		if strings.HasPrefix(t, "Read at") || strings.HasPrefix(t, "Write at") || strings.HasPrefix(t, "Previous read at") || strings.HasPrefix(t, "Previous write at") ||
+			strings.HasPrefix(t, "Atomic") || strings.HasPrefix(t, "Previous atomic") {
+			flush()
+			inStack = true
+			continue
+		}
+		if strings.HasPrefix(t, "Goroutine ") {
+			flush()
+			continue
+		}
+		if inStack && strings.HasSuffix(t, "()") {
+			if strings.Contains(t, "engine.(*EngineFacade).Close") || strings.Contains(t, "storage.(*Manager).Close") {
+				stackHasClose = true
+			}
+			if cur == "" && strings.Contains(t, "KevoDB/kevo/pkg/") && !strings.Contains(t, "zzverif") && !strings.Contains(t, "Verif") {
+				f := t[strings.LastIndex(t, "/pkg/")+5:]
+				cur = strings.TrimSuffix(f, "()")
+			}
+		}
+		if t == "" {
+			flush()
+		}
+	}
+	flush()
+	if len(frames) > 2 {
+		frames = frames[:2]
+	}
+	sort.Strings(frames)
+	allInternal := true
+	for _, f := range frames {
+		if f != "(no kevo frame)" {
+			allInternal = false
+		}
+	}
+	return frames, stackHasClose || allInternal || len(frames) < 2
 }
 
 func tail(s string, n int) string {
